@@ -3,14 +3,19 @@ package main
 import (
 	"fmt"
 	"os"
+	"runtime"
 	"sort"
 	"strconv"
 	"strings"
+	"sync"
+	"sync/atomic"
+	"time"
 
 	"github.com/pinealctx/neptune/remap"
 	"github.com/pinealctx/neptune/syncx/keylock"
 
 	"nvharness/lib/corr"
+	"nvharness/lib/rng"
 	"nvharness/lib/sched"
 )
 
@@ -77,9 +82,16 @@ func keyValues(hash string, prime uint64, single bool, shards []int) ([]int, []s
 	strs := make([]string, len(shards))
 	for i, s := range shards {
 		found := false
-		for j := 0; j < 20000 && !found; j++ {
+		for j := -1; j < 20000 && !found; j++ {
 			v := 1000*(i+1) + j
 			sv := "key-" + strconv.Itoa(i) + "-" + strconv.Itoa(j)
+			if j < 0 {
+				// key 0 is the zero value of the key type whenever the routing allows it ("for every key")
+				if i != 0 {
+					continue
+				}
+				v, sv = 0, ""
+			}
 			var idx int
 			switch {
 			case single:
@@ -103,6 +115,7 @@ func keyValues(hash string, prime uint64, single bool, shards []int) ([]int, []s
 }
 
 type env struct {
+	fields     []string // the init line, to build a fresh locker of the same shape
 	kind, hash string
 	prime      int
 	N, K       int
@@ -114,7 +127,7 @@ func parseInit(f []string) (*env, bool) {
 	if len(f) < 6 {
 		return nil, false
 	}
-	e := &env{kind: f[1], hash: f[2]}
+	e := &env{kind: f[1], hash: f[2], fields: append([]string{}, f...)}
 	nums := make([]int, 0, len(f))
 	for _, x := range f[3:] {
 		v, ok := parseNat(x)
@@ -132,7 +145,7 @@ func parseInit(f []string) (*env, bool) {
 		// the oracle ignores the hash name; the runner needs a known one to build the locker
 		return nil, false
 	}
-	if e.prime < 1 || e.prime > 100 || e.N < 1 || e.N > 32 || e.K < 1 || e.K > 32 || len(e.shards) != e.K || (single && e.prime != 1) {
+	if e.prime < 1 || e.prime > 100 || e.N < 1 || e.N > 48 || e.K < 1 || e.K > 48 || len(e.shards) != e.K || (single && e.prime != 1) {
 		return nil, false
 	}
 	for _, s := range e.shards {
@@ -154,6 +167,9 @@ func parseInit(f []string) (*env, bool) {
 			} else {
 				vals[i] = ints[i]
 			}
+		}
+		if e.kind == "kl" && e.hash == "mod" {
+			vals[0] = nil // the nil interface is a valid map key
 		}
 		var l keylock.Locker
 		switch {
@@ -376,13 +392,16 @@ func (r *runner) doCall(t int, unlock, write bool, keys []int, multi bool) strin
 		}
 	}
 	if !unlock {
-		// discipline: ascending key ids, all above (shard, id) of everything the thread holds
+		// discipline (the clause of the property, independent of the group comparator's direction): lists ascending
+		// in key id and duplicate free; a caller that already holds locks may only add keys of the same shard with
+		// greater ids (on a single locker: any greater id). Nesting across shards needs the locker's own (shard, key)
+		// rank, which the property text does not promise — such scripts are run but not judged for deadlock.
 		for i, k := range keys {
 			if i > 0 && keys[i-1] >= k {
 				r.disciplined = false
 			}
 			for h := range r.held[t] {
-				if r.rank(h) >= r.rank(k) {
+				if r.e.shards[h] != r.e.shards[k] || h >= k {
 					r.disciplined = false
 				}
 			}
@@ -423,22 +442,15 @@ func (r *runner) doCall(t int, unlock, write bool, keys []int, multi bool) strin
 	return r.status()
 }
 
-// acqPos: position of key k in the order in which a call with list keys takes its keys (documented order:
-// shard index ascending for the group lockers, then the caller's list order).
+// acqPos: list position of key k in keys (-1 if absent). Within one shard a call takes its keys in list order; the
+// order between shards is the group comparator's business and is not assumed here.
 func (r *runner) acqPos(keys []int, k int) int {
-	idx := -1
 	for i, x := range keys {
 		if x == k {
-			idx = i
+			return i
 		}
 	}
-	if idx < 0 {
-		return -1
-	}
-	if r.e.kind == "klg" || r.e.kind == "tkg" {
-		return r.e.shards[k]*1000 + idx
-	}
-	return idx
+	return -1
 }
 
 // blockers: for every parked lock call M, the keys of M on which some other thread holds or awaits a conflicting
@@ -491,12 +503,12 @@ func (r *runner) orderMonitor(t int, write bool, keys []int, pre map[int][]int) 
 			}
 			before := true
 			for _, x := range cand {
-				if r.acqPos(c.keys, x) <= pa {
+				if r.e.shards[x] != r.e.shards[a] || r.acqPos(c.keys, x) <= pa {
 					before = false
 				}
 			}
 			if before {
-				r.hit("order:parked-call-skipped-earlier-key", fmt.Sprintf("%s: thread %d is parked in a lock call on keys %v (write=%v); it can only be asleep on one of %v, all of which come after key %d in the acquisition order (shard index, list position), so it must hold key %d — yet thread %d obtained key %d (write=%v) without waiting", r.e.kind, m, c.keys, c.write, cand, a, a, t, a, write))
+				r.hit("order:parked-call-skipped-earlier-key", fmt.Sprintf("%s: thread %d is parked in a lock call on keys %v (write=%v); it can only be asleep on one of %v, all of which are in the shard of key %d and come after it in the list, so it must hold key %d — yet thread %d obtained key %d (write=%v) without waiting", r.e.kind, m, c.keys, c.write, cand, a, a, t, a, write))
 			}
 		}
 	}
@@ -528,10 +540,115 @@ func (r *runner) drain() string {
 		}
 	}
 	if len(stuck) > 0 && r.disciplined {
-		r.hit("deadlock:ordered-callers-stuck", fmt.Sprintf("%s: every acquisition respected the global order (shard index, key id) and everything that could be released was released, yet threads %v never returned", r.e.kind, stuck))
+		r.hit("deadlock:ordered-callers-stuck", fmt.Sprintf("%s: every call used an ascending duplicate-free key list, callers that already held locks only added greater keys of the same shard, and everything that could be released was released, yet threads %v never returned", r.e.kind, stuck))
 	}
 	return r.status()
 }
+
+// stress: g goroutines hammer a FRESH locker of the script's shape in true parallel (no scheduler): every critical
+// section checks per-key occupancy counters. Interleavings inside the table-mutex sections are exercised here only.
+func (r *runner) stress(g, iters int) string {
+	e, ok := parseInit(r.e.fields)
+	if !ok {
+		return "bad-op"
+	}
+	K := e.K
+	writers := make([]atomic.Int32, K)
+	readers := make([]atomic.Int32, K)
+	var bad atomic.Int32
+	var firstBad atomic.Value
+	var panics atomic.Value
+	var wg sync.WaitGroup
+	for gi := 0; gi < g; gi++ {
+		wg.Add(1)
+		go func(gi int) {
+			defer wg.Done()
+			defer func() {
+				if p := recover(); p != nil {
+					panics.Store(fmt.Sprint(p))
+				}
+			}()
+			rg := rng.New(uint64(1000*iters + gi))
+			for i := 0; i < iters; i++ {
+				write := rg.Bool()
+				var ks []int
+				if e.lk.Multi() && rg.Chance(1, 3) {
+					for k := 0; k < K; k++ {
+						if rg.Chance(1, 2) {
+							ks = append(ks, k)
+						}
+					}
+				}
+				multi := len(ks) > 0
+				if !multi {
+					ks = []int{rg.Intn(K)}
+				}
+				switch {
+				case multi && write:
+					e.lk.Locks(ks)
+				case multi:
+					e.lk.RLocks(ks)
+				case write:
+					e.lk.Lock(ks[0])
+				default:
+					e.lk.RLock(ks[0])
+				}
+				for _, k := range ks {
+					if write {
+						if writers[k].Add(1) != 1 || readers[k].Load() != 0 {
+							bad.Add(1)
+							firstBad.CompareAndSwap(nil, fmt.Sprintf("key %d: a writer is inside with %d writers and %d readers", k, writers[k].Load(), readers[k].Load()))
+						}
+					} else {
+						readers[k].Add(1)
+						if writers[k].Load() != 0 {
+							bad.Add(1)
+							firstBad.CompareAndSwap(nil, fmt.Sprintf("key %d: a reader is inside with %d writers", k, writers[k].Load()))
+						}
+					}
+				}
+				runtime.Gosched()
+				for _, k := range ks {
+					if write {
+						writers[k].Add(-1)
+					} else {
+						readers[k].Add(-1)
+					}
+				}
+				switch {
+				case multi && write:
+					e.lk.Unlocks(ks)
+				case multi:
+					e.lk.RUnlocks(ks)
+				case write:
+					e.lk.Unlock(ks[0])
+				default:
+					e.lk.RUnlock(ks[0])
+				}
+			}
+		}(gi)
+	}
+	done := make(chan struct{})
+	go func() { wg.Wait(); close(done) }()
+	select {
+	case <-done:
+	case <-time.After(8 * time.Second):
+		r.hit("concurrency:stall", fmt.Sprintf("%s: %d goroutines doing lock/critical section/unlock rounds (multi-key lists ascending) did not finish within 8 s", e.kind, g))
+		return "ok"
+	}
+	if p := panics.Load(); p != nil {
+		r.hit("concurrency:panic", fmt.Sprintf("%s: a goroutine of the parallel stress run panicked: %v", e.kind, p))
+	}
+	if bad.Load() > 0 {
+		r.hit("concurrency:exclusion-counter", fmt.Sprintf("%s: %d critical sections saw a conflicting occupant under %d parallel goroutines; first: %v", e.kind, bad.Load(), g, firstBad.Load()))
+	}
+	if n := e.lk.Entries(); n != 0 && p0(panics.Load()) {
+		r.hit("concurrency:leak", fmt.Sprintf("%s: after the parallel stress run every lock is released, yet %d entries remain", e.kind, n))
+	}
+	return "ok"
+}
+
+func p0(v interface{}) bool { return v == nil }
 
 func runScript(c corr.Case) corr.Result { return runScriptStream(c, func(string) {}) }
 
@@ -588,6 +705,12 @@ func runScriptStream(c corr.Case, emit func(string)) (res corr.Result) {
 			}
 		case len(f) == 1 && f[0] == "entries":
 			out = strconv.Itoa(r.e.lk.Entries())
+		case len(f) == 3 && f[0] == "stress":
+			g, ok1 := parseNat(f[1])
+			it, ok2 := parseNat(f[2])
+			if ok1 && ok2 && g >= 1 && g <= 16 && it >= 1 && it <= 5000 {
+				out = r.stress(g, it)
+			}
 		case len(f) == 1 && f[0] == "drain":
 			out = r.drain()
 			r.monitors(line)
